@@ -148,6 +148,7 @@ def check(recipe) -> list[Fail]:
     if fails:
         return fails
     extra = itertools.count()
+    held = []
     sources = []
     if how == "from_ensemble":
         # the ensemble that was copy-constructed from must stay untouched by everything done to the copy
@@ -235,7 +236,13 @@ def check(recipe) -> list[Fail]:
                 if nc == 0 or na == 0:
                     continue
                 i, j = op[1] % nc, op[2] % na
-                cf = ens[i]
+                neg = (op[1] + op[2]) % 3 == 0
+                cf = ens[i - nc if neg else i]      # row i by its negative or its positive index
+                if not np.array_equal(np.asarray(cf.coords, dtype=float), model.coords[i], equal_nan=True):
+                    return [Fail("conformer-does-not-show-its-row", f"step {step}: ens[{i - nc if neg else i}] of {nc} conformers does not read row {i}")]
+                if not neg:
+                    held.append((cf, i))     # (a handle taken by negative index is relative to the end: used at once only)
+                    del held[:-3]
                 if name == "write_coord":
                     cf.coords[j] = [op[3], -op[3], 2 * op[3]]
                     model.coords[i, j] = [op[3], -op[3], 2 * op[3]]
@@ -250,6 +257,18 @@ def check(recipe) -> list[Fail]:
                     cf.atoms[j].label = f"W{step}"
                     if ens.atoms[j].label != f"W{step}":
                         return [Fail("write-through-conformer-atom-not-visible-in-ensemble", f"step {step}")]
+            elif name == "use_held":
+                # a conformer handle taken EARLIER (before later appends / extends / transformations) is used now: still row i, live
+                if not held or na == 0:
+                    continue
+                cf, i = held[op[1] % len(held)]
+                j = op[2] % na
+                if not np.array_equal(np.asarray(cf.coords, dtype=float), model.coords[i], equal_nan=True):
+                    return [Fail("held-conformer-handle-no-longer-shows-its-row", f"step {step}: handle of row {i} taken earlier reads other values than ens.coords[{i}] holds")]
+                cf.coords[j] = [op[3], 2 * op[3], -op[3]]
+                model.coords[i, j] = [op[3], 2 * op[3], -op[3]]
+                cf.atomic_charges[j] = op[3]
+                model.charges[i, j] = op[3]
             elif name == "iterate":
                 kind = op[1]
                 ids = list(range(nc))
@@ -395,7 +414,7 @@ def strat(tier):
         st.sampled_from([["append_wrong_size"], ["extend_wrong_size"]]),
         st.tuples(st.sampled_from(["translate1", "translate2"]), st.lists(f, min_size=3, max_size=3)).map(list),
         st.tuples(st.sampled_from(["rotate", "rotate_stack"]), i).map(list),
-        st.tuples(st.sampled_from(["write_coord", "write_coords_setter", "write_charge", "write_atom_field"]), i, i, f).map(list),
+        st.tuples(st.sampled_from(["write_coord", "write_coords_setter", "write_charge", "write_atom_field", "use_held"]), i, i, f).map(list),
         st.tuples(st.just("iterate"), st.sampled_from(["plain", "nested", "interleaved", "zip", "break_then_full"])).map(list),
         st.tuples(st.just("slice"), i, i).map(list),
         st.tuples(st.just("dump"), st.sampled_from(["xyz", "mol2"])).map(list),
